@@ -33,6 +33,10 @@ type c13dCase struct {
 	AtCanon string `json:"tlsa_at_canonical_name"` // none | match | mismatch | servfail | insecure   (plain: at the MX name)
 	AtOrig  string `json:"tlsa_at_mx_name"`        // the same (only for aliases)
 	TLS     string `json:"tls"`                    // none | leaf
+	// Resolver: "" = one loopback resolver; "fallback-non-loopback" = the configured loopback
+	// resolver does not answer and the answers come from a second, non-loopback server
+	// (its AD flag is not to be trusted: nothing is DNSSEC-authenticated then)
+	Resolver string `json:"resolver,omitempty"`
 }
 
 type c13dNopLog struct{}
@@ -89,6 +93,11 @@ func c13dRun(w *c13World, c c13dCase) (fp, detail, outcome string) {
 	c13dServer.Resolver().Zones = zones
 	addr := c13dServer.LocalAddr().(*net.UDPAddr)
 	ext := maddydns.VerifExtResolver(addr.IP.String(), strconv.Itoa(addr.Port))
+	if c.Resolver == "fallback-non-loopback" {
+		// 127.0.0.2:<port> has no listener (the query fails at once); 0.0.0.0 reaches the
+		// server on this host and is not a loopback address
+		ext = maddydns.VerifExtResolverServers([]string{"127.0.0.2", "0.0.0.0"}, strconv.Itoa(addr.Port))
+	}
 	pol := &danePolicy{extResolver: ext, log: log.Logger{Out: log.NopOutput{}}}
 	d := pol.Start(&module.MsgMetadata{ID: "c13d"}).(*daneDelivery)
 	d.PrepareConn(context.Background(), mx)
@@ -132,6 +141,10 @@ func c13dRun(w *c13World, c c13dCase) (fp, detail, outcome string) {
 		applies = "none"
 	}
 	granted := err == nil && lvl == module.TLSAuthenticated
+	if c.Resolver == "fallback-non-loopback" {
+		// answers of a resolver reached over the network carry no authentication
+		applies, lookupFailed = "none", false
+	}
 	switch {
 	case lookupFailed:
 		if err == nil {
@@ -169,7 +182,7 @@ func c13dRun(w *c13World, c c13dCase) (fp, detail, outcome string) {
 func TestVerifC13Discovery(t *testing.T) {
 	r := vx.Start("C13", "discovery")
 	defer r.Finish()
-	r.Rule("TLSA discovery for one MX through the real PrepareConn/CheckConn of the dane policy and the real DNSSEC-aware resolver against a loopback DNS server: MX name {plain, secure CNAME, insecure CNAME} x address records authenticated or not x TLSA at the canonical name {none, matching EE, mismatching EE, SERVFAIL, not authenticated} x TLSA at the MX name (for aliases, the same five) x TLS {none, matching leaf}; oracle: a failed lookup of the applicable record set defers (temporary error), usable records are applied as in the statement, absent / non-authenticated records neither grant nor refuse. Non-trivial: all cases")
+	r.Rule("TLSA discovery for one MX through the real PrepareConn/CheckConn of the dane policy and the real DNSSEC-aware resolver against a loopback DNS server: MX name {plain, secure CNAME, insecure CNAME} x address records authenticated or not x TLSA at the canonical name {none, matching EE, mismatching EE, SERVFAIL, not authenticated} x TLSA at the MX name (for aliases, the same five) x TLS {none, matching leaf}; plus the same records served by a non-loopback fallback resolver (the loopback one does not answer); oracle: nothing from a non-loopback resolver is authenticated, a failed lookup of the applicable record set defers (temporary error), usable records are applied as in the statement, absent / non-authenticated records neither grant nor refuse. Non-trivial: all cases")
 	w := c13NewWorld()
 	if rp := r.Replay(); rp != nil {
 		var c c13dCase
@@ -188,6 +201,28 @@ func TestVerifC13Discovery(t *testing.T) {
 	}
 	kinds := []string{"none", "match", "mismatch", "servfail", "insecure"}
 	idx := 0
+	// the answers come from a non-loopback fallback resolver: DANE must be a no-op whatever they say
+	for _, ac := range []string{"none", "match", "mismatch"} {
+		for _, t := range []string{"none", "leaf"} {
+			idx++
+			if !r.Mine(idx) {
+				continue
+			}
+			c := c13dCase{Alias: "plain", AD: true, AtCanon: ac, AtOrig: "none", TLS: t, Resolver: "fallback-non-loopback"}
+			fp, detail, oc := c13dRun(w, c)
+			r.Eval()
+			r.Nontrivial(vx.JSON(c))
+			if fp == "HARNESS:dns" {
+				r.HarnessError(detail)
+				return
+			}
+			if fp != "" {
+				r.Violation(fp, detail+"\ncase: "+vx.JSON(c), c)
+				continue
+			}
+			r.Outcome("non-loopback resolver: " + oc)
+		}
+	}
 	for _, alias := range []string{"plain", "cname-secure", "cname-insecure"} {
 		for _, ad := range []bool{true, false} {
 			for _, ac := range kinds {
